@@ -171,10 +171,10 @@ func NewExec(prog *ssa.Program, name string, cfg Config) (*Exec, error) {
 		bin = "z3-new"
 	}
 	var err error
-	if ex.solver, err = NewSolver(bin, "-in"); err != nil {
+	if ex.solver, err = NewSolver(bin, false); err != nil {
 		return nil, err
 	}
-	if ex.inc, err = NewSolver(bin, "-in"); err != nil {
+	if ex.inc, err = NewSolver(bin, true); err != nil {
 		return nil, err
 	}
 	return ex, nil
@@ -456,6 +456,9 @@ func (ex *Exec) learnSigns(c Term) {
 	case '<', 'L':
 		a, b := c.args[0], c.args[1]
 		if isVar(b) && a.Const && (a.I.Sign() >= 0 || (c.op == '<' && a.I.Cmp(big.NewInt(-1)) == 0)) {
+			ex.nnVars[b.V[0]] = true
+		}
+		if isVar(b) && !a.Const && ex.nonneg(a) {
 			ex.nnVars[b.V[0]] = true
 		}
 	case '=':
@@ -1459,6 +1462,19 @@ func (ex *Exec) evalInstr(fr *frame, v ssa.Value) Value {
 				c := ex.aux("hexchar")
 				ex.assume(Or(And(Ge(c, IntC('0')), Le(c, IntC('9'))), And(Ge(c, IntC('a')), Le(c, IntC('f')))))
 				return VInt{c}
+			}
+			if b.IsHexOf {
+				// a character of the lower-case hex text of the bytes b.HexOf
+				i := ex.concretize(idx, 0, 2*len(b.HexOf)-1)
+				if i < 0 {
+					panic(goPanic{"string index out of range"})
+				}
+				hi, lo := ex.divModPos(b.HexOf[i/2], big.NewInt(16))
+				n := hi
+				if i%2 == 1 {
+					n = lo
+				}
+				return VInt{Ite(Lt(n, IntC(10)), Add(n, IntC('0')), Add(n, IntC('a'-10)))}
 			}
 			if b.Bytes != nil {
 				i := ex.concretize(idx, 0, len(b.Bytes)-1)
